@@ -405,47 +405,6 @@ func (w *world) doWS(r *hx.Rand, kind string, payload string) Obs {
 	return o
 }
 
-// doWSMalformed sends a (presumably malformed) frame, then — if the connection survives — a
-// sentinel operation, and reports everything the server sent for the first.
-func (w *world) doWSMalformed(kind string, init bool, frame string) Obs {
-	w.resetLogs()
-	c, err := dialWS(w.srv.URL, kind, init)
-	if err != nil {
-		return Obs{Resp: "dial error: " + err.Error()}
-	}
-	defer c.close()
-	if err := c.conn.WriteMessage(websocket.TextMessage, []byte(frame)); err != nil {
-		return Obs{Resp: "write error: " + err.Error()}
-	}
-	if !init {
-		// now initialise, so that the sentinel is answered
-		c.conn.WriteMessage(websocket.TextMessage, []byte(`{"type":"connection_init"}`))
-	}
-	c.conn.WriteMessage(websocket.TextMessage, []byte(`{"id":"sentinel","type":`+jstr(startType(kind))+`,"payload":{"query":"{__typename}"}}`))
-	payloads, strays, err := c.collect("sentinel")
-	var o Obs
-	var kept []string
-	for _, s := range strays {
-		if !strings.HasPrefix(s, ":connection_ack:") {
-			kept = append(kept, s)
-		}
-	}
-	switch {
-	case err != nil:
-		o.Resp = describeWSErr(err)
-		if len(kept) > 0 {
-			o.Resp += fmt.Sprintf(" after frames %q", kept)
-		}
-	case len(kept) > 0:
-		o.Resp = fmt.Sprintf("answered with %q", kept)
-	default:
-		_ = payloads
-		o.Resp = "ignored"
-	}
-	o.Calls, o.Costs = w.takeLogs()
-	return o
-}
-
 // ---- transport-free evaluation -------------------------------------------------------------------
 
 func decodeVars(text *string) (map[string]interface{}, error) {
